@@ -132,6 +132,7 @@ func (cfg *Config) paramExp(pe *syntax.ParamExp) (string, error) {
 			callVarInd = false
 			elems = cfg.sliceElems(pe, vr.List, vr.Indexes, name == "@" || name == "*")
 			str = join(elems)
+			set = len(elems) > 0 // like Bash, a list without elements counts as unset
 		case Associative:
 			indexAllElements = true
 			callVarInd = false
